@@ -4,16 +4,25 @@ finalization-flag rules.
 run_impl executes the op line on the real crysp.blake.  The driver answers with Model.Blake (mirror of the code) and
 with Spec.Blake / Spec.Blake2 (the submission / RFC 7693).  check_impl is the property's own predicate on the
 implementation's output: the digest length, hashlib.blake2b/blake2s as a second, independent oracle for every BLAKE2
-line hashlib accepts, and for the trace ops the counter / final-flag rule written directly from the property text."""
+line hashlib accepts, and for the trace ops the counter / final-flag rule written directly from the property text.
+The `blakeseqs` / `blake2seq` / `blake2seq.trace` lines (one object through several calls and streams; streamed runs) are
+executed by the C14 part (props/parts/c14_blake.py, Driver.BlakeD) and judged HERE against hashlib: every call / finished
+stream is the digest for the parameters of that call / that initstate alone."""
 import hashlib
 from props.common import *
+from props.parts import c14_blake as SEQ      # the streaming / whole-life ops (blake2seq, blakeseqs …) and their execution on the real code
 
 ID = 'C11'
 LEAN_PROOFS = ['Proofs.C11']
 GEN_ITEMS = ['BlakeG']
 RULE = ('op lines = (variant, salt/parameters, message, bit length); message lengths 0..4 blocks at every block multiple +-2 and '
         'around the spill boundaries 55/56/64, 111/112/128 (+-2), every L mod 8, salts and every BLAKE2 parameter at edge values, '
-        'outlen 1..32/64 exhaustively, preset counters around 2^32 / 2^64 (low-word boundary); distinct lines; '
+        'outlen 1..32/64 exhaustively, preset counters around 2^32 / 2^64 (low-word boundary); '
+        'ONE object (`blakeseqs` lines on a new Blake2 object and on the module singletons blake2b/blake2s; ops and model of the C14 part): a call WITH each '
+        'optional parameter (every digest length, salt, pers, fanout, depth, leaf length, node offset, node depth, inner length), a refused call / initstate, '
+        'a parametrised stream - each followed by a default call and a default stream, both digests against hashlib; streamed runs initstate(); update(1-2 blocks) x 1..3; '
+        'update(tail, padding=True) with tails 1, B-1, B, B+1 (`blake2seq` digest + bit counts against hashlib, `blake2seq.trace` (t,f) of every compression over all the calls: '
+        'the flag on the last block of the message only); BLAKE: salted / bit-length / refused call, then default call and streams; distinct lines; '
         'non-trivial = the implementation returned a digest')
 TRUSTED = ['Spec.Blake is typed from the BLAKE submission; the only executable cross-check of it in this image are the known answers of tests/test_blake.py (corpus/C11.ops)',
            'Spec.Blake2 is typed from RFC 7693 and cross-checked against hashlib.blake2b/blake2s through check_impl on every line hashlib accepts',
@@ -51,10 +60,20 @@ def _spy(h, f):
     return rec
 
 
+SEQ_OPS = ('blakeseqs', 'blakeseq', 'blakeseq.trace', 'blake2seq', 'blake2seq.trace')
+SINGLETONS = ('blake224', 'blake256', 'blake384', 'blake512', 'blake2b', 'blake2s')
+
+
 def run_impl(line):
     import crysp.blake as BL
     t = line.split()
     op, a = t[0], t[1:]
+    if op in SEQ_OPS:
+        # the module singletons are shared by every line of this worker: later lines see them as this line found them
+        saved = [(getattr(BL, n), dict(vars(getattr(BL, n)))) for n in SINGLETONS if hasattr(BL, n)]
+        try: return SEQ.run_impl(line)
+        finally:
+            for o, d in saved: vars(o).clear(); vars(o).update(d)
     def go():
         if op == 'blake':
             return hx(BL.Blake(int(a[0]))(unhx(a[2]), int(a[1]), unoi(a[3])))
@@ -87,9 +106,106 @@ def run_impl(line):
 
 
 # ---------------------------------------------------------------------------------------------
+H2KW = {'outlen': 'digest_size', 'salt': 'salt', 'pers': 'person', 'fanout': 'fanout', 'depth': 'depth', 'leafl': 'leaf_size',
+        'noffset': 'node_offset', 'ndepth': 'node_depth', 'inner': 'inner_size'}
+
+def h2digest(v, M, kw):
+    """hashlib's BLAKE2 digest for the crysp keywords kw (None: hashlib refuses the parameter set, e.g. depth 0)"""
+    ref = hashlib.blake2b if v == 'b' else hashlib.blake2s
+    try: return ref(M, **{H2KW[k]: x for k, x in kw.items()}).digest()
+    except (ValueError, OverflowError): return None
+
+
+def check_lives(line, res):
+    """`blakeseqs`: ONE object (or the module singleton) through calls with optional parameters, default calls and streamed
+    runs.  BLAKE2: every complete call and every finished stream is hashlib's digest for the parameters given to THAT call /
+    THAT initstate (the defaults for every parameter not given there, whatever was given before), a digest length out of
+    range is refused, a piece that is not whole blocks is refused, the counter after each piece is the bits fed since
+    initstate.  BLAKE: digest length; the fresh-object comparison of the C14 part."""
+    clss, steps = SEQ.parse_multi(line)
+    outs = res.split(';')
+    if len(outs) != len(steps): return 'blakeseqs: %d results for %d steps' % (len(outs), len(steps))
+    stream, seen = {}, {}
+    for i, ((k, st), o) in enumerate(zip(steps, outs)):
+        if k is None: continue
+        cls = clss[k].lstrip('@')
+        seen.setdefault(k, []).append(' '.join([st[0]] + (st[1:] if st[0] == 'init' else st[2:] if st[0] == 'call' else [])))
+        bad = lambda why: 'blakeseqs object %d (%s) step #%d after [%s]: %s' % (k, clss[k], i, ' | '.join(seen[k][:-1]), why)
+        if cls not in B2:
+            if st[0] in ('fin', 'call') and o != 'ERR' and len(unhx(o)) != int(cls) // 8:
+                return bad('digest length %d, expected %d' % (len(unhx(o)), int(cls) // 8))
+            continue
+        size, bb, mx = B2[cls]
+        if st[0] == 'new': stream[k] = None
+        elif st[0] in ('init', 'call'):
+            kw = SEQ.kw_of(st[1:] if st[0] == 'init' else st[2:])
+            stream[k] = None
+            if not 1 <= kw.get('outlen', mx) <= mx:
+                if o != 'ERR': return bad('a digest length out of range must be refused')
+                continue
+            if o == 'ERR': return bad('unexpected exception')
+            if st[0] == 'init':
+                stream[k] = (b'', kw)
+                if o != 'c0': return bad('counter %s right after initstate' % o)
+                continue
+            exp = h2digest(cls, unhx(st[1]), kw)
+            if len(unhx(o)) != kw.get('outlen', mx): return bad('digest has %d bytes, this call asked for %d' % (len(unhx(o)), kw.get('outlen', mx)))
+            if exp is not None and unhx(o) != exp:
+                return bad('the call (%s) gives %s, hashlib with just these parameters %s' % (' '.join(st[2:]) or 'no keyword', o[:25], exp.hex()[:24]))
+        elif stream.get(k) is None: continue
+        else:
+            msg, kw = stream[k]; p = unhx(st[1])
+            if len(st) > 2 or (st[0] == 'upd' and len(p) % bb):
+                stream[k] = None
+                if o != 'ERR': return bad('a piece that must be refused was accepted')
+            elif st[0] == 'upd':
+                stream[k] = (msg + p, kw)
+                if o != 'c%d' % (8 * len(msg + p)): return bad('%s after %d bits' % (o, 8 * len(msg + p)))
+            else:
+                stream[k] = None
+                if not p and msg: continue                         # empty final piece after data: known finding of C14
+                if o == 'ERR': return bad('unexpected exception')
+                exp = h2digest(cls, msg + p, kw)
+                if len(unhx(o)) != kw.get('outlen', mx): return bad('streamed digest has %d bytes, initstate asked for %d' % (len(unhx(o)), kw.get('outlen', mx)))
+                if exp is not None and unhx(o) != exp:
+                    return bad('initstate(%s); %d bytes in pieces; final piece of %d bytes gives %s, hashlib %s' % (
+                        ' '.join('%s=%s' % kv for kv in kw.items()), len(msg), len(p), o[:25], exp.hex()[:24]))
+    return SEQ.check_multi(line, res)
+
+
+def check_streamed(op, a, res):
+    """`blake2seq` / `blake2seq.trace` (and the BLAKE ones): initstate(); update(p1) … update(pk, padding=True)"""
+    bad = lambda why: '%s: %s' % (op, why)
+    two = op.startswith('blake2')
+    first = 1 if two or op.endswith('.trace') else 2
+    ps = [unhx(x) for x in a[first:]]
+    bb = B2[a[0]][1] if two else blk(int(a[0]))
+    if not ps or any(len(p) % bb for p in ps[:-1]):
+        return None if res == 'ERR' else bad('a non-final piece that is not block aligned must be refused')
+    if res == 'ERR': return bad('unexpected exception')
+    M = b''.join(ps)
+    if op == 'blake2seq':
+        if not ps[-1] and M: return None                           # empty final piece after data: known finding of C14
+        cnts, tot = [], 0
+        for p in ps[:-1]: tot += 8 * len(p); cnts.append(tot)
+        exp = hx(h2digest(a[0], M, {})) + ';' + il(cnts)
+        return None if res == exp else bad('pieces of %s bytes: streamed %s, hashlib;bit counts %s' % ([len(p) for p in ps], res[:40], exp[:40]))
+    if op == 'blake2seq.trace':
+        # (byte counter, final flag) of every compression over ALL the calls: the bytes of the message up to the end of the
+        # block, the flag on the last block of the message only
+        if not ps[-1] and M: return None
+        dd = max(1, (len(M) + bb - 1) // bb)
+        exp = []
+        for i in range(dd): exp += [min(len(M), (i + 1) * bb), 1 if i == dd - 1 else 0]
+        return None if unil(res) == exp else bad('pieces of %s bytes: (t,f) %s, expected %s' % ([len(p) for p in ps], res, il(exp)))
+    return SEQ.check_impl(' '.join([op] + a), res)
+
+
 def check_impl(line, res):
     t = line.split(); op, a = t[0], t[1:]
     bad = lambda why: '%s: %s' % (op, why)
+    if op == 'blakeseqs': return check_lives(line, res)
+    if op in SEQ_OPS: return check_streamed(op, a, res)
     if op in ('blake', 'blake.s', 'blake.pre'):
         n = int(a[0])
         if n not in SIZES: return None if res == 'ERR' else bad('size must be refused')
@@ -266,9 +382,80 @@ def blake2_cases(tier, rng):
             yield D(M, **k), 'blake2.random'
 
 
+def b2_params(v, rng):
+    """one keyword string per optional parameter of Blake2.__call__ / initstate (each at a non-default value)"""
+    size, bb, mx = B2[v]; l8 = mx // 4
+    return ['outlen=%d' % rng.choice([1, mx // 2, mx - 1]), 'outlen=%d' % rng.randrange(1, mx), 'salt=%s' % hx(rb(rng, l8)), 'pers=%s' % hx(rb(rng, l8)),
+            'fanout=%d' % rng.randrange(2, 256), 'depth=%d' % rng.randrange(2, 256), 'leafl=%d' % (rng.getrandbits(32) | 1),
+            'noffset=%d' % (rng.getrandbits(48) | 1), 'ndepth=%d' % rng.randrange(1, 256), 'inner=%d' % rng.randrange(1, mx + 1)]
+
+
+def one_object_cases(tier, rng):
+    """ONE Blake2 object — a new one and the module singleton — through a call WITH each optional parameter followed by a
+    default call (and a default / differently parametrised stream), after a refused call; streamed runs `initstate();
+    update(blocks) …; update(tail, padding=True)` with 1-3 non-final pieces of 1-2 blocks; the same for BLAKE's salt and
+    bit length.  Every digest against hashlib (BLAKE2) / Spec.Blake through the driver (BLAKE)."""
+    quick = tier == 'quick'
+    ml = SEQ.mline
+    for v, (size, bb, mx) in B2.items():
+        for obj in (v, '@' + v):
+            pars = b2_params(v, rng)
+            for pi, par in enumerate(pars):
+                M1, M2 = rb(rng, rng.choice([0, 3, bb, bb + 1])), rb(rng, rng.choice([1, bb - 1, 2 * bb + 5]))
+                yield ml([obj], [(0, 'new'), (0, 'call %s %s' % (hx(M1), par)), (0, 'call ' + hx(M2))]), 'one object:call(%s), default call' % par.split('=')[0]
+                if quick and pi % 2 and obj[0] == '@': continue
+                # the streaming interface after it: default initstate, then a stream
+                yield ml([obj], [(0, 'new'), (0, 'call %s %s' % (hx(M1), par))] + [(0, x) for x in SEQ.bstream(obj, rng, rng.randrange(0, 3), rng.choice([1, 5, bb - 1]))]), 'one object:call(%s), default stream' % par.split('=')[0]
+                if quick and pi % 3: continue
+                other = pars[(pi + 3) % len(pars)]
+                yield ml([obj], [(0, 'new'), (0, 'call ' + hx(M2)), (0, 'call %s %s' % (hx(M1), par)), (0, 'call %s %s' % (hx(M2), other)), (0, 'call ' + hx(M2))]), 'one object:default, two parameters in turn, default'
+                yield ml([obj], [(0, 'new')] + [(0, x) for x in SEQ.bstream(obj, rng, 1, 3, 'init ' + par)] + [(0, x) for x in SEQ.bstream(obj, rng, 2, 7)] + [(0, 'call ' + hx(M1))]), 'one object:stream(%s), default stream, default call' % par.split('=')[0]
+            # every digest length once, then the default (the shared object must not remember it)
+            for o in (range(1, mx) if not quick else rng.sample(range(1, mx), 6)):
+                M = rb(rng, rng.choice([0, 5, bb + 1]))
+                yield ml([obj], [(0, 'new'), (0, 'call %s outlen=%d' % (hx(M), o)), (0, 'call ' + hx(M))]), 'one object:call(outlen), default call'
+            # refused calls / initstate, then the default
+            for o in (0, mx + 1):
+                M = rb(rng, 9)
+                yield ml([obj], [(0, 'new'), (0, 'call ' + hx(M)), (0, 'call %s outlen=%d' % (hx(M), o)), (0, 'call ' + hx(M))]), 'one object:refused call, default call'
+                yield ml([obj], [(0, 'new'), (0, 'init outlen=%d' % o)] + [(0, x) for x in SEQ.bstream(obj, rng, 1, 4)]), 'one object:refused initstate, default stream'
+            # streamed runs: k non-final pieces of 1..2 blocks, tails around the block boundary
+            for k in (1, 2, 3):
+                for tail in ((1, bb - 1, bb, bb + 1) if not quick else (1, bb) if k > 1 else (1, bb - 1, bb, bb + 1)):
+                    sizes = [rng.choice([1, 1, 2]) * bb for _ in range(k)]
+                    M = rb(rng, sum(sizes) + tail)
+                    ps, p = [], 0
+                    for n in sizes: ps.append(M[p:p + n]); p += n
+                    ps.append(M[p:])
+                    if obj[0] != '@':
+                        yield 'blake2seq %s %s' % (v, ' '.join(hx(x) for x in ps)), 'streamed:%d pieces + tail' % k
+                        yield 'blake2seq.trace %s %s' % (v, ' '.join(hx(x) for x in ps)), 'streamed.trace'
+                    else:
+                        yield ml([obj], [(0, 'new'), (0, 'init')] + [(0, 'upd ' + hx(x)) for x in ps[:-1]] + [(0, 'fin ' + hx(ps[-1]))]), 'streamed on the singleton:%d pieces + tail' % k
+            # two streams in a row on the object, the second one shorter (nothing of the first one is left)
+            yield ml([obj], [(0, 'new')] + [(0, x) for x in SEQ.bstream(obj, rng, 3, 9)] + [(0, x) for x in SEQ.bstream(obj, rng, 1, 2)]), 'one object:two streams in a row'
+    # BLAKE: salt and bit length of an earlier call / stream, then the defaults (spec = Spec.Blake through the driver)
+    for n in SIZES:
+        bb = blk(n); w = wbits(n)
+        for obj in (str(n), '@%d' % n):
+            if quick and obj[0] == '@' and n in (224, 384): continue
+            X = rng.getrandbits(4 * w) | 1
+            M1, M2 = rb(rng, bb + 9), rb(rng, rng.choice([0, 3, bb - 9, bb]))
+            yield ml([obj], [(0, 'new'), (0, 'call %s s=%d' % (hx(M1), X)), (0, 'call ' + hx(M2))]), 'one object:blake call(s), default call'
+            yield ml([obj], [(0, 'new'), (0, 'call %s bitlen=%d' % (hx(M1), 8 * bb + 3)), (0, 'call ' + hx(M2)), (0, 'call %s s=%d bitlen=%d' % (hx(M1), X, 8 * len(M1) + 1)), (0, 'call ' + hx(M2))]), 'one object:blake call(bitlen) / refused, default call'
+            yield ml([obj], [(0, 'new'), (0, 'call %s s=%d' % (hx(M1), X))] + [(0, x) for x in SEQ.bstream(obj, rng, 2, 5)] + [(0, x) for x in SEQ.bstream(obj, rng, 1, 0, 'init salt=%d' % X)] + [(0, 'call ' + hx(M2))]), 'one object:blake call(s), default stream, salted stream, default call'
+
+
 def cases(tier, rng):
     if tier == 'search':
         while True:
+            v = rng.choice('bs'); size, bb, mx = B2[v]; obj = rng.choice([v, '@' + v])
+            par = rng.choice(b2_params(v, rng))
+            first = rng.choice(['call %s %s' % (hx(rb(rng, rng.randrange(0, 2 * bb))), par), 'init ' + par])
+            yield SEQ.mline([obj], [(0, 'new'), (0, first)] + rng.choice([[(0, 'call ' + hx(rb(rng, rng.randrange(0, 3 * bb))))],
+                            [(0, x) for x in SEQ.bstream(obj, rng, rng.randrange(0, 4), rng.randrange(1, bb + 2))]])), 'search'
+            ps = [rb(rng, rng.choice([1, 2]) * bb) for _ in range(rng.randrange(1, 4))] + [rb(rng, rng.randrange(1, bb + 2))]
+            yield 'blake2seq %s %s' % (v, ' '.join(hx(x) for x in ps)), 'search'
             n = rng.choice(SIZES); bb = blk(n)
             l = rng.choice([rng.randrange(0, 3 * bb), rng.randrange(bb, 5 * bb), rng.choice([bb, 2 * bb, 3 * bb]) + rng.randrange(-2, 3)])
             M = rb(rng, l)
@@ -285,10 +472,14 @@ def cases(tier, rng):
         return
     yield from blake_cases(tier, rng)
     yield from blake2_cases(tier, rng)
+    yield from one_object_cases(tier, rng)
 
 
 def shrink(line):
     t = line.split()
+    if t[0] in SEQ_OPS:
+        yield from SEQ.shrink(line)
+        return
     for i, tok in enumerate(t[1:], 1):
         if tok[0] == 'x' and len(tok) > 3 and i == len(t) - 1 or (t[0].startswith('blake') and not t[0].startswith('blake2') and i == 3 and tok[0] == 'x' and len(tok) > 3):
             n = (len(tok) - 1) // 2
